@@ -10,43 +10,13 @@ DELEGATES = {"is_decimal": "decode_decimal", "is_non_decimal": "decode_non_decim
 
 
 def rule_g1(repo, res):
-    """G1: the Token predicates are `try: self.decoder.decode_X(self); return True; except ValueError: return False`
-    with the matching X; is_numeric is the disjunction of is_decimal and is_non_decimal."""
-    for pred, dec in DELEGATES.items():
-        fn = repo.method("Token", pred)
-        ok = False
-        tries = [n for n in fn.body if isinstance(n, ast.Try)]
-        if len(tries) == 1:
-            t = tries[0]
-            calls = [c for b in t.body for c in ast.walk(b) if isinstance(c, ast.Call) and norm(c.func) == f"self.decoder.{dec}"
-                     and len(c.args) == 1 and norm(c.args[0]) in ("self", "str(self)")]
-            ret_true = any(isinstance(b, ast.Return) and isinstance(b.value, ast.Constant) and b.value.value is True for b in t.body)
-            h_ok = any(h.type is not None and norm(h.type) == "ValueError" and
-                       any(isinstance(b, ast.Return) and isinstance(b.value, ast.Constant) and b.value.value is False for b in h.body)
-                       for h in t.handlers)
-            other_calls = [c for b in t.body for c in ast.walk(b) if isinstance(c, ast.Call) and norm(c.func).startswith("self.decoder.")
-                           and norm(c.func) != f"self.decoder.{dec}"]
-            ok = bool(calls) and ret_true and h_ok and not other_calls
-        res.oblige("G1", f"Token.{pred} == (self.decoder.{dec}(self) does not raise ValueError)", ok=ok)
-        if not ok:
-            res.add(Finding("G1", f"Token.{pred}", f"delegation to {dec}",
-                            f"Token.{pred} is no longer `try: self.decoder.{dec}(self); return True / except ValueError: "
-                            "return False`: the public predicate and the decoder can classify the same text differently",
-                            where=f"pvl/token.py:{fn.lineno}"))
-    fn = repo.method("Token", "is_numeric")
-    names = {c.func.attr for c in ast.walk(fn) if isinstance(c, ast.Call) and isinstance(c.func, ast.Attribute)
-             and isinstance(c.func.value, ast.Name) and c.func.value.id == "self"}
-    ok = names == {"is_decimal", "is_non_decimal"}
-    # shape: `if a or b: return True; return False`  or `return a or b`
-    ors = [n for n in ast.walk(fn) if isinstance(n, ast.BoolOp)]
-    ok = ok and len(ors) == 1 and isinstance(ors[0].op, ast.Or)
-    res.oblige("G1", "Token.is_numeric == is_decimal() or is_non_decimal()", ok=ok)
-    if not ok:
-        res.add(Finding("G1", "Token.is_numeric", "disjunction", "Token.is_numeric is no longer the disjunction of "
-                        "is_decimal() and is_non_decimal()", where=f"pvl/token.py:{fn.lineno}"))
+    """G1 (cascade part): the decoder cascade has the documented order.  The delegation of the Token predicates to
+    the decoder is decided by language equality (langrules.rule_g1_lang)."""
     # the decoder cascade: keywords first, then quoted / based / decimal / date-time, then unquoted
     for dcls in repo.subclasses("PVLDecoder"):
         c, fn = repo.resolve_method(dcls, "decode_simple_value")
+        from .. import canon
+        fn = canon.canon(repo, c, fn, module="decoder")       # a named tuple of attempts is read in place
         order = []
         for n in ast.walk(fn):
             if isinstance(n, ast.For) and isinstance(n.iter, (ast.Tuple, ast.List)):
@@ -65,8 +35,8 @@ def rule_g1(repo, res):
 
 def run(repo, res, tier):
     res.explanation = (
-        "G1: the Token predicates delegate to the decoder method of the same class under `except ValueError` "
-        "(structural), is_numeric is their disjunction, the decoder cascade has the documented order. "
+        "G1: each Token predicate holds exactly for the texts the decoder method of the same class accepts and "
+        "is_numeric is the union of the numeric two (language equality per pairing); the decoder cascade has the documented order. "
         "G2/S1/N1 are decided on automata: a partial evaluator turns the ASTs of Token.is_unquoted_string, "
         "decode_* and the encoders' needs_quotes/is_identifier/is_symbol/encode_string into DFAs over a representative "
         "alphabet (grammar tables resolved, int()/float()/strptime languages from frozen models), and inclusions are "
@@ -80,6 +50,7 @@ def run(repo, res, tier):
     from .. import hookrules as _hk
     _hk.rule_token_init(repo, res)
     an = langrules.analyse(repo)
+    langrules.rule_g1_lang(repo, res, an)
     langrules.rule_g2(repo, res, an)
     langrules.rule_s1(repo, res, an, "own")
     langrules.rule_n1(repo, res, an)
